@@ -7,7 +7,9 @@ use serde_json::json;
 
 use crate::case::{Case, CaseError, Env, Tier};
 use crate::exec::Exec;
-use crate::iotrace::Effect;
+use crate::crash::{for_each_crash_point, CrashCtx, Selection};
+use crate::iotrace::{Effect, Image};
+use crate::recover::recover;
 use crate::model::Outcome;
 use crate::ops::{COp, GenCfg, Policy, SOp};
 use crate::runner::Property;
@@ -42,14 +44,15 @@ impl Property for C06 {
     }
 
     fn rule(&self) -> String {
-        "generated histories over 2..5 queues with file-sized payloads, truncations, deletions and restarts (no \
-         crashes). The harness records, from the I/O trace and independently of the library's reference counting, \
+        "generated histories over 2..5 queues with file-sized payloads, truncations, deletions and restarts. The harness records, from the I/O trace and independently of the library's reference counting, \
          the WAL file that was current when each append call began. After every truncate, delete_queue and open: the \
          directory must hold exactly a contiguous run of wal-<n> files ending at the writer's current file; no file \
          numbered below min(A, B) may exist, where A = oldest 'file at append time' over all retained records and B = \
          file that was current when the call began (for open: the file holding the end of the log); and \
-         resource_usage().disk_used_bytes == sum of the sizes of the files present. evaluations = truncate/delete/open \
-         calls checked. non-trivial = the call unlinked >= 1 file or ran with >= 2 files present; distinct = hash(op \
+         resource_usage().disk_used_bytes == sum of the sizes of the files present. The same audit runs after the open \
+         that recovers from a crash, in every other history at crash points inside the calls that rolled over to a new WAL file (those next to a file creation / resize / removal, one in \
+         eight of the other effect boundaries and generated write cuts; A then uses the lowest file a record at that queue/position was ever \
+         appended in). evaluations = truncate/delete/open calls checked + recovery opens audited. non-trivial = the call unlinked >= 1 file or ran with >= 2 files present; distinct = hash(op \
          index, concrete history)."
             .to_string()
     }
@@ -83,15 +86,23 @@ impl Property for C06 {
         ops.push(SOp::Restart { policy: None });
         // (queue, position) -> WAL file number that was current when the append began
         let mut origin: BTreeMap<(String, u64), u64> = BTreeMap::new();
+        // every origin a (queue, position) ever had, with the op that appended it (for the crash stage)
+        let mut origin_history: BTreeMap<(String, u64), Vec<(usize, u64)>> = BTreeMap::new();
+        // effect ranges of the calls that created a WAL file (roll-over)
+        let mut rollover_ranges: Vec<(usize, usize)> = Vec::new();
         for sop in &ops {
             let step = exec.step(sop)?;
             exec.usable_or_skip(&step)?;
             let begin_file = wal_number(&step.file_at_begin).unwrap_or(0);
+            if !matches!(step.cop, COp::Restart { .. }) && exec.effects()[step.effects.clone()].iter().any(|effect| matches!(effect, Effect::Create { .. })) {
+                rollover_ranges.push((step.effects.start, step.effects.end));
+            }
             match (&step.cop, &step.real.outcome) {
                 (COp::Append { q, batch, .. }, Outcome::Appended { last: Some(last) }) => {
                     let first = (last + 1).saturating_sub(batch.len() as u64);
                     for pos in first..=*last {
                         origin.insert((q.text(), pos), begin_file);
+                        origin_history.entry((q.text(), pos)).or_default().push((step.idx, begin_file));
                     }
                 }
                 (COp::Delete { q }, Outcome::Deleted) => {
@@ -179,6 +190,111 @@ impl Property for C06 {
             }
         }
         exec.driver.close()?;
+        // Crash stage ("and after open" holds for the open that recovers from a crash too): crash points inside the
+        // calls that rolled over to a new WAL file (at most 3 such calls per history), recovery, same audit.
+        let replay_crash = super::c02::parse_crash_point(&case.extra);
+        // (every other history: the stage costs far more than the live audit)
+        if (!rollover_ranges.is_empty() && hash64(&exec.cops) % 2 == 0) || replay_crash.is_some() {
+            let effects: Vec<Effect> = exec.effects().to_vec();
+            let frames = exec.driver.tracer.frames.clone();
+            let crash_dir = env.scratch.fresh("c06-crash");
+            let history_hash = hash64(&exec.cops);
+            if replay_crash.is_some() {
+                rollover_ranges = vec![(0, effects.len())];
+            }
+            for (lo, hi) in rollover_ranges.iter().take(3) {
+                let mut selection = Selection::standard(&case.words);
+                selection.exhaustive_below = 0;
+                selection.generated_cuts = 1;
+                selection.range = Some((*lo, *hi));
+                selection.only = replay_crash;
+                for_each_crash_point(&Image::default(), &effects, &frames, &selection, |ctx: &CrashCtx| -> Result<(), CaseError> {
+                    let extra = json!({"crash": {"k": ctx.point.k, "b": ctx.point.b}});
+                    // every crash point next to a file creation / resize / removal, one in eight of the others
+                    let namespace_effect = |idx: usize| matches!(effects.get(idx), Some(Effect::Create { .. } | Effect::SetLen { .. } | Effect::Unlink { .. }));
+                    let near_namespace_change = namespace_effect(ctx.point.k) || (ctx.point.k > 0 && namespace_effect(ctx.point.k - 1));
+                    if replay_crash.is_none() && !near_namespace_change && hash64(&(history_hash, ctx.point.k, ctx.point.b)) % 8 != 0 {
+                        return Ok(());
+                    }
+                    let mut recovered = match recover(ctx.image, &crash_dir, case.policy) {
+                        Ok(recovered) => recovered,
+                        Err(crate::recover::RecoverError::Engine(msg)) => return Err(CaseError::Engine(msg)),
+                        // a recovery that fails is C02's concern
+                        Err(_) => return Ok(()),
+                    };
+                    env.evals(1);
+                    let upto = ctx.inflight.filter(|op| *op != usize::MAX).or(ctx.last_completed.filter(|op| *op != usize::MAX));
+                    let mut oldest_retained: Option<u64> = None;
+                    let mut unknown = false;
+                    for (name, queue) in &recovered.state {
+                        for (pos, _) in &queue.recs {
+                            // the lowest file any record at that (queue, position) was ever appended in so far: a lower
+                            // bound of A, which keeps the audit sound when an older incarnation of the queue is recovered
+                            let lowest = origin_history
+                                .get(&(name.clone(), *pos))
+                                .and_then(|list| list.iter().filter(|(op, _)| upto.map_or(false, |upto| *op <= upto)).map(|(_, file)| *file).min());
+                            match lowest {
+                                Some(file) => oldest_retained = Some(oldest_retained.map_or(file, |cur: u64| cur.min(file))),
+                                None => unknown = true,
+                            }
+                        }
+                    }
+                    let current = wal_number(&recovered.driver.tracer.cur_name).unwrap_or(0);
+                    let begin = wal_number(&recovered.driver.tracer.writer_at_open).unwrap_or(current);
+                    let entries = list_dir(&crash_dir)?;
+                    let reported = recovered.driver.log.as_ref().unwrap().resource_usage().disk_used_bytes as u64;
+                    recovered.driver.close()?;
+                    if unknown {
+                        env.class("crash:retained-record-of-unknown-origin-skipped");
+                        return Ok(());
+                    }
+                    let bound = oldest_retained.map_or(begin, |oldest| oldest.min(begin));
+                    let numbers: Vec<u64> = entries.iter().filter_map(|(name, _)| wal_number(name)).collect();
+                    let fail = |msg: String, signature: &str| {
+                        Err(exec.failure(
+                            format!("crash at effect {} byte {} ({}), then open: {msg} (files present: {:?}, writer at file {current}, oldest retained record written in file {:?}, end of the log found in file {begin})",
+                                ctx.point.k, ctx.point.b, ctx.class.name(), numbers, oldest_retained),
+                            signature,
+                            extra.clone(),
+                        ))
+                    };
+                    if numbers.is_empty() || *numbers.last().unwrap() != current {
+                        return fail("the newest WAL file is not the file being written".to_string(), "not-ending-at-current-after-crash");
+                    }
+                    for pair in numbers.windows(2) {
+                        if pair[1] != pair[0] + 1 {
+                            return fail("WAL files are not a contiguous run".to_string(), "not-contiguous-after-crash");
+                        }
+                    }
+                    if numbers[0] < bound {
+                        // Finding D7 has an exact shape: every file kept below the bound holds nothing but continuation
+                        // (Middle / Last) frames of an entry whose first frame was in a file already unlinked. Anything
+                        // else kept is a different violation.
+                        let only_continuations = numbers.iter().filter(|number| **number < bound).all(|number| {
+                            let name = crate::util::wal_name(*number);
+                            !frames.iter().any(|frame| frame.name == name && (frame.frame_type == 1 || frame.frame_type == 2))
+                        });
+                        if only_continuations {
+                            return fail(
+                                format!("file {} holds only continuation frames of an entry whose first file is gone, is older than both bounds (min = {bound}) but still exists", numbers[0]),
+                                "continuation-only-file-kept-after-crash",
+                            );
+                        }
+                        return fail(format!("file {} is older than both bounds (min = {bound}) but still exists", numbers[0]), "file-not-reclaimed-after-crash");
+                    }
+                    let disk: u64 = entries.iter().map(|(_, size)| *size).sum();
+                    if reported != disk {
+                        return fail(format!("disk_used_bytes = {reported} but the files total {disk} bytes"), "disk-used-mismatch-after-crash");
+                    }
+                    env.class("crash:open-after-crash-in-roll-over-call");
+                    if numbers.len() >= 2 || ctx.image.files.len() > numbers.len() {
+                        env.nontrivial(crate::util::mix(history_hash, hash64(&(ctx.point.k, ctx.point.b))));
+                    }
+                    Ok(())
+                })?;
+            }
+            env.scratch.remove(&crash_dir);
+        }
         env.scratch.remove(&dir);
         Ok(())
     }
